@@ -3,6 +3,14 @@ families = correspondence families (harness `gen <fam>`) with quick-tier op coun
 monitor = number of monitor cases in the quick tier (harness `monitor <id>`)."""
 
 PROPS = {
+    "C20": {
+        "families": {"integr": 42000, "fx": 6000},
+        "monitor": 20000,
+        "assumptions": [
+            "supplies/cumulative interest are the unsigned values the venue accounts hold (non-negative); total liquidity and collateral supply positive for the round-trip theorems",
+            "Kamino/Solend/Drift program behaviour itself is out of scope (mocks' math is what marginfi uses)",
+        ],
+    },
     "C18": {
         "families": {"curve": 20000, "fx": 6000},
         "monitor": 20000,
@@ -28,6 +36,12 @@ _NOTE = ("Trusted: Lean kernel; axioms propext/Classical.choice/Quot.sound only 
          "and by diffing model vs real code on generated operations. ")
 
 MANIFEST_TEXT = {
+    "C20": {
+        "text": "Machine-checked Lean 4 theorems for all supplies, amounts, prices, decimals: Kamino/Solend liquidity->collateral->liquidity and collateral->liquidity->collateral round trips never gain; Drift withdraw(increment(a)) <= a and decrement(a) >= increment(a); adjust_u64/i64/i128 return exactly floor(price*ratio), are monotone in price and ratio, and return None exactly when the product leaves I80F48 or the floor leaves the target integer type (iff theorem) — never a wrapped value; Drift price adjustment is exactly floor(p*cum/10^10); staleness predicates. The statement 'adjusted price <= price x EXACT rate' is proved FALSE for Kamino/Solend by a kernel-checked witness and kept as a partial theorem relative to the ratio actually used (known finding C20-F1, replayed on the real functions every run). Model diffed against the real functions on ~42k generated inputs per run incl. overflow cliffs.",
+        "design_ref": "DESIGN.md §4 C20",
+        "note": _NOTE + "Known finding C20-F1 is reported, not suppressed silently; any excess beyond the denominator-truncation bound is reported as a new violation.",
+        "technique": "Lean 4 proof: integer floor/truncation algebra (Int.ediv lemmas) + model/implementation correspondence check",
+    },
     "C18": {
         "text": "Machine-checked Lean 4 theorems for EVERY configuration accepted by validate_seven_point (any number of points, any u32 values; proof by induction over the point list) and EVERY utilisation bit pattern: the base rate is defined, lies in [rate(zero), rate(hundred)], equals each configured point's rate at its utilisation, equals the zero/hundred rates at <=0 / >=100 %, is monotone in utilisation, is clamped outside [0,1]; borrow rate >= base with non-negative fees, lending rate <= base on [0,1]; the legacy curve is defined and within [0,max] for every utilisation. lerp's unchecked -,/,+ are proved in range on every call site. Model diffed against the real validate / calc_interest_rate / accrual functions on ~20k generated configs per run (ok, None and panic outcomes compared) and the same predicates are monitored on the real calculator.",
         "design_ref": "DESIGN.md §4 C18",
